@@ -13,7 +13,7 @@ complete disk / device-namespace / UNC prefix — and every portable single name
 Bases with a verbatim prefix (rebuilt from components by `push`) and bases that start like a
 prefix without forming a complete one (K3) stay with the oracle.
 -/
-import TypedPathVerif.Props.C04b
+import TypedPathVerif.Lemmas.WinAppend
 import TypedPathVerif.Props.C12
 
 namespace TP.C12c
